@@ -47,6 +47,8 @@ namespace cs
                 if (r.chance(1, 2))
                     p.set("budget1", (long long)r.pick<long long>({256, 1024, 8192}));
             }
+            if (fb && r.chance(1, 3))
+                p.set("dynmax0", 1); // the default allocator's max_node_size() shrinks while it is used
             if (comp.find("pmr") != std::string::npos)
             {
                 p.set("maxnode0", (long long)r.pick<long long>({16, 64, 100, 4096}));
@@ -121,7 +123,7 @@ namespace cs
                     break;
                 case 3:
                     if (r.chance(1, 2))
-                        p.add("mkx", {(long long)r.below(6), (long long)r.below(17), (long long)r.below(20)});
+                        p.add("mkx", {(long long)r.below(8), (long long)r.below(17), (long long)r.below(20)});
                     else
                     p.add("dl", {(long long)r.below(3), (long long)r.below(4), (long long)r.below(9)});
                     break;
